@@ -190,7 +190,7 @@ func (mr March) Run(c choice.Chooser, opt sim.Options) sim.Result {
 		return res
 	}
 	res.Steps = int(out.Steps)
-	res.Count("sched:policy:"+out.PolicyName, 1)
+	res.Count("fault:schedule-policy:"+out.PolicyName, 1)
 	res.Count("sched:steps", int(out.Steps))
 	res.Count("sched:adopted-workers", out.Adopted)
 	res.LogHash = out.Signature()
